@@ -155,6 +155,9 @@ def perturb(v, nested=True):
     elif isinstance(v, float):
         if v in (float("inf"), float("-inf")):
             out += [-v, 1.0, 1.7976931348623157e308 if v > 0 else -1.7976931348623157e308, 0.0]
+        if v == v and abs(v) < 1e-300:
+            # around zero the relative tolerance is no tolerance at all: the nearest floats differ
+            out += [v + 5e-324, v - 5e-324, 1e-310, -1e-310] + ([-v] if v else [5e-324])
         if v == v and v not in (float("inf"), float("-inf")):
             out += [v - 1.0, v + 1.0, v - 0.2, v + 0.2]
             # far outside the relative tolerance, yet tiny in absolute terms
